@@ -75,6 +75,12 @@ pub fn batch_cases(seed: u64, n: usize) -> Vec<Case> {
             }
             c.tag = "several-similar-pages".into();
         }
+        if i % 8 == 2 {
+            c.bytes = many_plugins_text(&mut r).into_bytes();
+            c.sett = Sett::default();
+            c.sett.thr = *r.pick(&[0.2f32, 0.5, 1.0]);
+            c.tag = "many-plugins".into();
+        }
         if i % 8 == 3 {
             c.bytes = adjacent_blocks_text(&mut r).into_bytes();
             c.sett = Sett::default();
